@@ -17,7 +17,7 @@ import numpy as np
 
 from harness import common, gen
 
-MODULES = ['CirqVerif.Props.C03', 'CirqVerif.Props.C03b', 'CirqVerif.Obligations.C03']
+MODULES = ['CirqVerif.Props.C03', 'CirqVerif.Props.C03b', 'CirqVerif.Obligations.C03', 'NonVacuity.ComplexModel']
 
 
 def families(cirq, cirq_google, cirq_ionq):
